@@ -62,7 +62,10 @@ type vrtSchedule struct {
 	NT    int              `json:"nt"`
 	Route map[string][]int `json:"route"` // source shard -> owner target of id 1..MaxId
 	Late  []int            `json:"late"`
-	Cmds  []vrtCmd         `json:"cmds"`
+	// Stride: the k-th task of a source carries task id k*Stride and a batch ending before k carries the exclusive high
+	// watermark k*Stride-1 (Stride > 1): Temporal's task ids are sparse and its watermark is not "last id + 1"
+	Stride int      `json:"stride"`
+	Cmds   []vrtCmd `json:"cmds"`
 }
 
 type vrtTok struct {
@@ -148,6 +151,7 @@ type vrtSrcStream struct {
 	half     chan struct{}
 	inRecv   bool // guarded by h.mu
 	lastReq  *adminservice.StreamWorkflowReplicationMessagesRequest
+	run      int
 }
 
 func (c *vrtSrcStream) Context() context.Context { return c.ctx }
@@ -172,6 +176,10 @@ func (c *vrtSrcStream) Recv() (*adminservice.StreamWorkflowReplicationMessagesRe
 		}
 		c.h.mu.Lock()
 		c.inRecv = false
+		if c.run != c.h.run {
+			c.h.mu.Unlock()
+			return nil, errors.New("verif: stream of an earlier run")
+		}
 		c.h.emit(map[string]interface{}{"ev": "SrcBatch", "s": c.s, "inc": c.inc, "ids": ids,
 			"high": m.GetMessages().GetExclusiveHighWatermark()})
 		c.h.mu.Unlock()
@@ -194,6 +202,10 @@ func (c *vrtSrcStream) Send(req *adminservice.StreamWorkflowReplicationMessagesR
 	}
 	a := req.GetSyncReplicationState().GetInclusiveLowWatermark()
 	c.h.mu.Lock()
+	if c.run != c.h.run {
+		c.h.mu.Unlock()
+		return io.EOF
+	}
 	// the receiver's keep-alive re-sends the very same request object; aggregated acks are fresh allocations
 	ka := req == c.lastReq
 	c.lastReq = req
@@ -209,6 +221,7 @@ type vrtClient struct {
 	adminservice.AdminServiceClient
 	h       *vrtHarness
 	cluster int
+	run     int
 }
 
 func (c *vrtClient) StreamWorkflowReplicationMessages(ctx context.Context, _ ...grpc.CallOption) (adminservice.AdminService_StreamWorkflowReplicationMessagesClient, error) {
@@ -217,7 +230,13 @@ func (c *vrtClient) StreamWorkflowReplicationMessages(ctx context.Context, _ ...
 	if v := md.Get(history.MetadataKeyServerShardID); len(v) > 0 {
 		fmt.Sscanf(v[0], "%d", &shard)
 	}
-	st := &vrtSrcStream{h: c.h, s: shard, ctx: ctx, batchCh: make(chan *adminservice.StreamWorkflowReplicationMessagesResponse),
+	c.h.mu.Lock()
+	runNow := c.h.run
+	c.h.mu.Unlock()
+	if c.run != runNow {
+		return nil, errors.New("verif: client of an earlier run")
+	}
+	st := &vrtSrcStream{h: c.h, run: runNow, s: shard, ctx: ctx, batchCh: make(chan *adminservice.StreamWorkflowReplicationMessagesResponse),
 		broken: make(chan struct{}), half: make(chan struct{})}
 	if c.cluster == vrtClusterA {
 		c.h.mu.Lock()
@@ -247,6 +266,7 @@ type vrtSrvStream struct {
 	brokenMu sync.Once
 	ackCh    chan int64
 	gate     chan struct{} // one token per "send" command
+	run      int           // the run this stream belongs to (a straggler of an earlier run must not log into a later one)
 	// guarded by h.mu:
 	waiting bool // the proxy is blocked in Send
 	inRecv  bool
@@ -300,6 +320,9 @@ func (s *vrtSrvStream) Send(resp *adminservice.StreamWorkflowReplicationMessages
 	s.h.mu.Lock()
 	defer s.h.mu.Unlock()
 	s.waiting = false
+	if s.run != s.h.run {
+		return errors.New("verif: stream of an earlier run")
+	}
 	high := m.GetExclusiveHighWatermark()
 	pids := []int64{}
 	tasks := []map[string]interface{}{}
@@ -424,7 +447,7 @@ func (h *vrtHarness) reset(sc *vrtSchedule) {
 			}
 		}
 	}
-	h.emit(map[string]interface{}{"ev": "Config", "id": sc.ID, "ns": sc.NS, "nt": sc.NT, "route": sc.Route, "late": sc.Late})
+	h.emit(map[string]interface{}{"ev": "Config", "id": sc.ID, "ns": sc.NS, "nt": sc.NT, "route": sc.Route, "late": sc.Late, "stride": h.stride()})
 	h.mu.Unlock()
 	late := map[int]bool{}
 	for _, t := range sc.Late {
@@ -461,7 +484,7 @@ func (h *vrtHarness) waitFor(cond func() bool, d time.Duration) bool {
 
 func (h *vrtHarness) newSrv(cluster, shard, inc int) *vrtSrvStream {
 	ctx, cancel := context.WithCancel(context.Background())
-	return &vrtSrvStream{h: h, cluster: cluster, shard: shard, inc: inc, ctx: ctx, cancel: cancel,
+	return &vrtSrvStream{h: h, run: h.run, cluster: cluster, shard: shard, inc: inc, ctx: ctx, cancel: cancel,
 		broken: make(chan struct{}), ackCh: make(chan int64, 8), gate: make(chan struct{}, 64)}
 }
 
@@ -480,7 +503,7 @@ func (h *vrtHarness) openTgt(t int) bool {
 		_ = streamRouting(log.NewNoopLogger(), srv,
 			history.ClusterShardID{ClusterID: vrtClusterA, ShardID: 1}, // server shard named by the connecting target
 			history.ClusterShardID{ClusterID: vrtClusterB, ShardID: int32(t)},
-			h.sm, &vrtClient{h: h, cluster: vrtClusterB},
+			h.sm, &vrtClient{h: h, cluster: vrtClusterB, run: srv.run},
 			RoutingParameters{RoutingLocalShardCount: int32(h.sched.NS), DirectionLabel: "inbound"}, context.Background())
 	}()
 	key := history.ClusterShardID{ClusterID: vrtClusterB, ShardID: int32(t)}
@@ -510,7 +533,7 @@ func (h *vrtHarness) openSrc(s int) bool {
 		_ = streamRouting(log.NewNoopLogger(), srv,
 			history.ClusterShardID{ClusterID: vrtClusterB, ShardID: 1},
 			history.ClusterShardID{ClusterID: vrtClusterA, ShardID: int32(s)},
-			h.sm, &vrtClient{h: h, cluster: vrtClusterA},
+			h.sm, &vrtClient{h: h, cluster: vrtClusterA, run: srv.run},
 			RoutingParameters{RoutingLocalShardCount: int32(h.sched.NT), DirectionLabel: "outbound"}, context.Background())
 	}()
 	key := history.ClusterShardID{ClusterID: vrtClusterA, ShardID: int32(s)}
@@ -521,6 +544,25 @@ func (h *vrtHarness) openSrc(s int) bool {
 	}, 2*time.Second)
 	return ok
 }
+
+func (h *vrtHarness) stride() int64 {
+	if h.sched == nil || h.sched.Stride <= 1 {
+		return 1
+	}
+	return int64(h.sched.Stride)
+}
+
+// real task id / exclusive high watermark on the wire for position id / "everything before position high"
+func (h *vrtHarness) real(id int64) int64 { return id * h.stride() }
+func (h *vrtHarness) realHigh(high int64) int64 {
+	if h.stride() == 1 {
+		return high
+	}
+	return high*h.stride() - 1
+}
+
+// position of a wire value (task id or watermark)
+func (h *vrtHarness) unreal(x int64) int64 { return (x + h.stride() - 1) / h.stride() }
 
 func (h *vrtHarness) ownerOf(s int, id int64) int {
 	r := h.sched.Route[fmt.Sprint(s)]
@@ -542,15 +584,15 @@ func (h *vrtHarness) mkTask(s int, id int64, ns, wf string) *replicationv1.Repli
 	h.rng.Read(data)
 	t := &replicationv1.ReplicationTask{
 		TaskType:     enumsspb.REPLICATION_TASK_TYPE_HISTORY_TASK,
-		SourceTaskId: id,
+		SourceTaskId: h.real(id),
 		Priority:     enumsspb.TASK_PRIORITY_UNSPECIFIED,
 		RawTaskInfo: &persistencespb.ReplicationTaskInfo{
-			NamespaceId: ns, WorkflowId: wf, RunId: tok, TaskId: id, Version: int64(100 + h.rng.Intn(100)),
+			NamespaceId: ns, WorkflowId: wf, RunId: tok, TaskId: h.real(id), Version: int64(100 + h.rng.Intn(100)),
 			FirstEventId: int64(h.rng.Intn(1000)), NextEventId: int64(1000 + h.rng.Intn(1000)),
 		},
 		Data: &commonpb.DataBlob{Data: data},
 	}
-	h.tokens[tok] = vrtTok{S: s, ID: id}
+	h.tokens[tok] = vrtTok{S: s, ID: h.real(id)}
 	h.orig[tok] = proto.Clone(t).(*replicationv1.ReplicationTask)
 	return t
 }
@@ -585,7 +627,7 @@ func (h *vrtHarness) exec(c vrtCmd) bool {
 		h.mu.Unlock()
 		msg := &adminservice.StreamWorkflowReplicationMessagesResponse{
 			Attributes: &adminservice.StreamWorkflowReplicationMessagesResponse_Messages{
-				Messages: &replicationv1.WorkflowReplicationMessages{ReplicationTasks: tasks, ExclusiveHighWatermark: high}}}
+				Messages: &replicationv1.WorkflowReplicationMessages{ReplicationTasks: tasks, ExclusiveHighWatermark: h.realHigh(high)}}}
 		before := h.seqNow()
 		select {
 		case st.batchCh <- msg:
@@ -738,7 +780,7 @@ func (h *vrtHarness) exec(c vrtCmd) bool {
 		h.mu.Lock()
 		// the source cluster resumes from the level it was last acknowledged
 		if a := h.srcAck[c.S]; a > 0 {
-			h.nextID[c.S] = a
+			h.nextID[c.S] = h.unreal(a)
 		} else {
 			h.nextID[c.S] = 1
 		}
